@@ -46,9 +46,13 @@ class UnitRegistry:
     """A registry for unit symbols"""
 
     _unit_system_id = None
+    _derived_symbols = None
 
     def __init__(self, add_default_symbols=True, lut=None, unit_system=None):
         self._unit_object_cache = {}
+        # symbols that _lookup_unit_symbol derived from a prefixable symbol and
+        # wrote back into the table: they are forgotten whenever the table is edited
+        self._derived_symbols = set()
         if lut:
             self.lut = lut
         else:
@@ -64,7 +68,7 @@ class UnitRegistry:
             ret = self.lut[str(key)]
         except KeyError:
             try:
-                _lookup_unit_symbol(str(key), self.lut)
+                _lookup_unit_symbol(str(key), self.lut, self._derived_symbols)
                 ret = self.lut[str(key)]
             except UnitParseError:
                 raise SymbolNotFoundError(
@@ -76,10 +80,16 @@ class UnitRegistry:
         if str(item) in self.lut:
             return True
         try:
-            _lookup_unit_symbol(str(item), self.lut)
+            _lookup_unit_symbol(str(item), self.lut, self._derived_symbols)
             return True
         except UnitParseError:
             return False
+
+    def _forget_derived_symbols(self):
+        if self._derived_symbols:
+            for symbol in self._derived_symbols:
+                self.lut.pop(symbol, None)
+            self._derived_symbols.clear()
 
     @property
     def unit_system_id(self):
@@ -140,6 +150,7 @@ class UnitRegistry:
         from unyt.unit_object import _validate_dimensions
 
         self._unit_system_id = None
+        self._forget_derived_symbols()
 
         # Validate
         if not isinstance(base_value, float):
@@ -178,6 +189,7 @@ class UnitRegistry:
 
         """
         self._unit_system_id = None
+        self._forget_derived_symbols()
 
         if symbol not in self.lut:
             raise SymbolNotFoundError(
@@ -204,6 +216,7 @@ class UnitRegistry:
 
         """
         self._unit_system_id = None
+        self._forget_derived_symbols()
 
         if symbol not in self.lut:
             raise SymbolNotFoundError(
@@ -268,7 +281,9 @@ class UnitRegistry:
 
     def __deepcopy__(self, memodict=None):
         lut = copy.deepcopy(self.lut)
-        return type(self)(lut=lut)
+        ret = type(self)(lut=lut)
+        ret._derived_symbols = set(self._derived_symbols or ())
+        return ret
 
 
 class _NonModifiableUnitRegistry(UnitRegistry):
@@ -285,7 +300,7 @@ class _NonModifiableUnitRegistry(UnitRegistry):
 default_unit_registry = _NonModifiableUnitRegistry()
 
 
-def _lookup_unit_symbol(symbol_str, unit_symbol_lut):
+def _lookup_unit_symbol(symbol_str, unit_symbol_lut, derived_symbols=None):
     """
     Searches for the unit data tuple corresponding to the given symbol.
 
@@ -295,6 +310,9 @@ def _lookup_unit_symbol(symbol_str, unit_symbol_lut):
         The unit symbol to look up.
     unit_symbol_lut : dict
         Dictionary with symbols as keys and unit data tuples as values.
+    derived_symbols : set, optional
+        If given, a prefixed symbol that gets written into unit_symbol_lut
+        is recorded here.
 
     """
     if symbol_str in unit_symbol_lut:
@@ -333,6 +351,8 @@ def _lookup_unit_symbol(symbol_str, unit_symbol_lut):
         )
 
         unit_symbol_lut[symbol_str] = ret
+        if derived_symbols is not None:
+            derived_symbols.add(symbol_str)
 
         return ret
 
